@@ -325,6 +325,6 @@ func main() {
 	r.Set("traces_validated_against_impl", res.Transitions)
 	r.Set("max_depth", res.MaxDepth)
 	r.Set("universe", u)
-	r.Set("rule", "explicit-state BFS to fixpoint from the zero value over K=V={0..u-1} (incl. the zero value 0): Add(k,v) for all pairs, RemoveForward/RemoveReverse incl. absent, Clear, Clone (search continues on the clone, independence checked both ways by fingerprint); every lookup over the universe compared with a set-of-pairs model after every transition")
+	r.Set("rule", "explicit-state BFS to fixpoint from the zero value over K=V={0..u-1} (incl. the zero value 0): Add(k,v) for all pairs, RemoveForward/RemoveReverse incl. absent, Clear, Clone (search continues on the clone, independence checked both ways by fingerprint); every lookup over the universe compared with a set-of-pairs model after every transition PLUS deterministic families beyond the exhaustive bound (large sizes, every single/double removal from trees built in 7 orders, long one-instance churn histories): see the *_family_* counters")
 	r.Finish()
 }
